@@ -155,7 +155,7 @@ def run(pid, tier):
         if thorough:
             gens = [("wide", 3, [0, 1, 8, 255, 256, 257, 4096, MEM - 4096, MEM - 257, MEM - 256, MEM - 8, MEM - 1, MEM, MEM + 1],
                      "{1, 8}", "{1, 8}", 2),
-                    ("deep", 4, [0, 8, 256, MEM - 256, MEM - 8, MEM + 1], "{8}", "{8}", 1)]
+                    ("deep", 4, [0, 8, 256, MEM - 8], "{8}", "{8}", 1)]
         else:
             gens = [("quick", 3, [0, 1, 8, 256, MEM - 256, MEM - 8, MEM + 1], "{8}", "{8}", 2)]
         nbeh_total = 0
